@@ -162,6 +162,28 @@ def run_nasty(extra=None, tag="nasty"):
             crashes.append("oal-cli on '%s': exit %s (%s)" % (name, r["rc"], (re.search(r"panicked at [^\n]+|overflowed its stack|TIMEOUT", r["out"]) or [""])[0] if True else ""))
         if w["rc"] != 0 or w["status"] is None:
             crashes.append("oal_wasm::compile on '%s': exit %s (%s)" % (name, w["rc"], (re.search(r"panicked at [^\n]+|overflowed its stack|TIMEOUT", w["out"]) or [""])[0]))
+    # the language server's load / evaluate cycle compiles whatever tree comes back, errors or not
+    import lspdrv
+    lsp = lspdrv.build_lsp()
+    muts = mutation_texts()
+    sample = {k: v for i, (k, v) in enumerate(sorted(muts.items())) if i % 14 == 0} if tier() == "thorough" else {}
+    import concurrent.futures as cf
+
+    def lsp_one(item):
+        name, text = item
+        d = os.path.join(rdir, "lsp-" + name)
+        try:
+            a = lspdrv.session(lsp, d, {"main.oal": "res / on get -> <{}>;\n", "oal.toml": '[api]\nmain = "main.oal"\ntarget = "out.yaml"\n'},
+                               [("open", "main.oal", text), ("sync", "main.oal")], ("main.oal", {"line": 0, "character": 0}))
+        except Exception as exn:
+            a = {"alive": False, "exit": str(exn)[:60]}
+        return name, a
+    items = list(texts.items()) + [("mutation-" + k.replace("/", "-"), v) for k, v in sample.items()]
+    with cf.ThreadPoolExecutor(max_workers=12) as pool_:
+        for name, a in pool_.map(lsp_one, items):
+            detail.setdefault(name, {})["lsp_alive"] = bool(a.get("alive"))
+            if not a.get("alive"):
+                crashes.append("oal-lsp on '%s': the server died (exit %s)" % (name, a.get("exit")))
     mc, nmut = run_mutations(drv, rdir)
     crashes += mc[:8]
     detail["token-mutations"] = {"texts": nmut, "crashes": len(mc)}
@@ -243,6 +265,34 @@ def check():
     for b in obad:
         if b[1] not in bad:
             bad.append(b[1])
+
+    # tokenize: a number-literal token is only ever stored with a number (the compiler's literal_tag / eval_literal rely on it)
+    try:
+        f_tok = MS.one(r"^tokenize$")
+        ext = mirlib.executor([MS], max_paths=4000)
+        i_num = E.index("TokenKind", "LiteralNumber")
+        n_num = 0
+        okn = True
+        for p in ext.run(f_tok, arg_names=["loc", "input"]):
+            if p.kind != "backedge":
+                continue
+            for e in p.calls():
+                if e[1] != "TokenList::push":
+                    continue
+                tok = e[2][1]
+                kind, val = ms.proj(tok, ("f", 0), E), ms.proj(tok, ("f", 1), E)
+                v1, _ = S.check("tokenize: pushed kind can be LiteralNumber", S.pc(p.pc) + [S.i(ms.disc_of(kind, E)) == i_num])
+                if v1 == "sat":
+                    v0, _ = S.check("tokenize: pushed kind must be LiteralNumber", S.pc(p.pc) + [S.i(ms.disc_of(kind, E)) != i_num])
+                    if v0 == "unsat":
+                        n_num += 1
+                        if not (val[0] == "variant" and val[2] == "Number"):
+                            okn = False
+        o.query("tokenize: a LiteralNumber token is stored only together with its numeric value", "mirsym/structural", "unsat" if (okn and n_num > 0) else "violated", 0)
+        if not okn or n_num == 0:
+            bad.append("tokenize: a LiteralNumber token is stored only together with its numeric value")
+    except Exception as exn:
+        o.inconc("tokenize number lemma: %s" % str(exn)[:120])
 
     syntax_contract(o, L, MS, MM, bad, on_sat)
     loader_lemmas(o, L, ML, MW, bad, on_sat)
